@@ -80,6 +80,19 @@ VCS_SUBCOMMANDS_BY_NAME = {
 Env = typ.Dict[str, str]
 
 
+def _unquote_path(path: str) -> str:
+    """Undo the quoting of git status.
+
+    A path with a blank, a quote, a backslash or a non-ascii character is
+    printed as a C string literal (with octal escapes for bytes).
+    """
+    if len(path) >= 2 and path.startswith('"') and path.endswith('"'):
+        raw = path[1:-1].encode("utf-8").decode("unicode_escape").encode("latin-1")
+        return raw.decode("utf-8", errors="surrogateescape")
+    else:
+        return path
+
+
 class VCSAPI:
     """Absraction for git and mercurial."""
 
@@ -153,7 +166,7 @@ class VCSAPI:
         # The status code is in fixed columns ("XY path" for git, "C path" for hg)
         # and may start with a blank; a rename is reported as "old -> new".
         status_items = [
-            (line[:2].strip(), filepath.strip())
+            (line[:2].strip(), _unquote_path(filepath.strip()) if self.name == 'git' else filepath.strip())
             for line in status_output.splitlines()
             for filepath in (line[2:].split(" -> ") if line[:2].strip().startswith(("R", "C")) else [line[2:]])
         ]
